@@ -15,6 +15,7 @@ import (
 	"google.golang.org/protobuf/reflect/protoreflect"
 	"google.golang.org/protobuf/types/dynamicpb"
 	"larking.io/api/testpb"
+	"larking.io/larking"
 )
 
 // C15C: client cancellation / disconnect on a real loopback connection. The handler reports
@@ -22,7 +23,9 @@ import (
 //   C15C <front: grpc|http> <shape: unary|client|server|bidi> <point: ctx|recv|send> ; released <ms> | stuck
 
 type c15cEnv struct {
-	lb     *loopback
+	lb      *loopback
+	lbPlain *loopback
+	lbStats *loopback // the same service behind a stats handler and interceptors (fronts ending in "+s")
 	mu     sync.Mutex
 	events chan string
 	point  string
@@ -122,6 +125,21 @@ func c15cSetup() *c15cEnv {
 	if err != nil {
 		panic(err)
 	}
+	e.lbPlain = e.lb
+	muxS, err := dynMux([]protoreflect.FileDescriptor{fd}, impl, larking.StatsOption(c14Stats{}),
+		larking.UnaryServerInterceptorOption(func(ctx context.Context, req interface{}, info *grpc.UnaryServerInfo, h grpc.UnaryHandler) (interface{}, error) {
+			return h(ctx, req)
+		}),
+		larking.StreamServerInterceptorOption(func(srv interface{}, ss grpc.ServerStream, info *grpc.StreamServerInfo, h grpc.StreamHandler) error {
+			return h(srv, ss)
+		}))
+	if err != nil {
+		panic(err)
+	}
+	e.lbStats, err = newLoopback(muxS)
+	if err != nil {
+		panic(err)
+	}
 	c15cenv = e
 	return e
 }
@@ -140,6 +158,11 @@ func c15cRun(o *out, input string) {
 	f := strings.Fields(input)
 	front, shape, point := f[1], f[2], f[3]
 	e := c15cSetup()
+	front, withStats := strings.CutSuffix(front, "+s")
+	e.lb = e.lbPlain
+	if withStats {
+		e.lb = e.lbStats
+	}
 	for len(e.events) > 0 {
 		<-e.events
 	}
@@ -237,6 +260,9 @@ func c15cGen(o *out) {
 		// request body is unread, so the context is not cancelled until the handler reads
 		"http unary ctx", "http client recv", "http server ctx", "http server send",
 		"web unary ctx", "web server ctx", "web server send",
+		// the same behind a stats handler (whose TagRPC derives a context) and interceptors
+		"grpc+s unary ctx", "grpc+s bidi recv", "grpc+s server send", "http+s unary ctx", "http+s client recv", "http+s server ctx", "http+s server send",
+		"web+s unary ctx", "web+s server ctx",
 	} {
 		o.count("cancel/" + strings.Fields(c)[0])
 		c15cRun(o, "C15C "+c)
